@@ -2,7 +2,8 @@
    print  = ConverterToPDDLString.walk (pddl_writer.py);  parse = UPPDDLReader._parse_exp (up_pddl_reader.py). *)
 From Coq Require Import List ZArith NArith QArith Qcanon Bool String Ascii.
 Import ListNotations.
-Require Import UPV.Core.Expr UPV.Core.Eval UPV.Model.PddlExpr UPV.Proofs.PddlExpr_proofs.
+Require Import UPV.Core.Expr UPV.Core.Eval UPV.Model.PddlExpr UPV.Model.PddlLex UPV.Proofs.PddlExpr_proofs
+  UPV.Proofs.PddlLex_proofs.
 Local Open Scope string_scope.
 
 (* For EVERY expression of the printable fragment [pddl_ok] (and/or/not/imply/iff, comparisons, arithmetic, fluents with
@@ -109,3 +110,71 @@ Proof.
   apply ex_roundtrip. vm_compute. reflexivity.
 Qed.
 Print Assumptions C18_expr_roundtrip_nonvacuous.
+
+(* ======================================================================= lexical layer (Model/PddlLex.v)
+   lex  = the tokenisation of the pyparsing grammar nested_expr() with ignore(";" + rest_of_line);
+   prep = text.replace("\t", " ").lower() of parse_problem_string;  print_text = the converter's f-strings. *)
+
+(* every S-expression whose atoms are non-empty and free of white space, parentheses and ";" is read back from its
+   canonical single-blank text *)
+Theorem C18_expr_lex_roundtrip : forall s, atoms_ok s = true -> lex (show s) = Some s.
+Proof. exact lex_show. Qed.
+Print Assumptions C18_expr_lex_roundtrip.
+
+(* the text the converter REALLY emits (its own layout: "(and (imply a b) (imply b a) )", newline + blank after a
+   quantifier's variable list) is left alone by [prep] and tokenised to exactly the structural [print e].
+   Hypotheses: names are lexically valid tokens (not empty; no white space, parenthesis, ";", tab, upper-case letter). *)
+Theorem C18_expr_lex_print_text :
+  forall nm : naming,
+    (forall f, name_ok (nm_fl nm f) = true) -> (forall o, name_ok (nm_obj nm o) = true) ->
+    (forall p, name_ok (nm_par nm p) = true) -> (forall v, name_ok (nm_var nm v) = true) ->
+    (forall t, name_ok (nm_ty nm t) = true) ->
+    forall e s, print nm e = Some s ->
+    exists t, print_text nm e = Some t /\ prep t = t /\ lex t = Some s.
+Proof. exact lex_print_text. Qed.
+Print Assumptions C18_expr_lex_print_text.
+
+(* text level round trip: for every expression of the fragment the converter emits a text, and lower-casing +
+   tokenisation + _parse_exp of that text give [norm e] *)
+Theorem C18_expr_text_roundtrip :
+  forall (nm : naming) (E : env),
+    (forall f, e_fl E (nm_fl nm f) = Some f) ->
+    (forall f, is_kw (nm_fl nm f) = false) ->
+    (forall o, e_obj E (nm_obj nm o) = Some o) ->
+    (forall o, e_fl E (nm_obj nm o) = None) ->
+    (forall o, starts_q (nm_obj nm o) = false) ->
+    (forall p, e_par E (nm_par nm p) = Some p) ->
+    (forall v, e_var E (nm_var nm v) = Some v) ->
+    (forall p v, nm_par nm p <> nm_var nm v) ->
+    (forall t, e_ty E (nm_ty nm t) = Some t) ->
+    (forall t, starts_q (nm_ty nm t) = false) ->
+    (forall s q, parse_number s = Some q -> e_fl E s = None /\ e_obj E s = None) ->
+    (forall f, name_ok (nm_fl nm f) = true) ->
+    (forall o, name_ok (nm_obj nm o) = true) ->
+    (forall p, name_ok (nm_par nm p) = true) ->
+    (forall v, name_ok (nm_var nm v) = true) ->
+    (forall t, name_ok (nm_ty nm t) = true) ->
+    forall e, pddl_ok [] e = true ->
+    exists t, print_text nm e = Some t /\ parse_text E t = Some (norm e).
+Proof. exact text_roundtrip. Qed.
+Print Assumptions C18_expr_text_roundtrip.
+
+Definition ex_flat : string :=
+  "(forall (?v1 - t0 ?v2 - t1)" ++ String nl
+  (" (and (or (x0) (not (x1 ?v1 b3))) (imply (x2 ?v2 ?p0) (and (imply (x0) (= ?v1 ?p1)) (imply (= ?v1 ?p1) (x0)) ))"
+   ++ " (exists (?v3 - t0)" ++ String nl " (<= (+ 1.25 (+ -7 (x3 ?v3))) (* -0.001 (* (x4) 2))))"
+   ++ " (< (- (x4) 2.0) (/ 10000000000000000000000 (x4))) (= (x4) 12345.67)))").
+
+(* the same expression as above at the text level, and a hand-written layout with upper case, a comment, a tab and
+   a carriage return *)
+Example C18_expr_text_roundtrip_nonvacuous :
+  print_text ex_nm ex_e = Some ex_flat
+  /\ option_map (fun r => expr_eqb r (norm ex_e)) (parse_text ex_env ex_flat) = Some true
+  /\ lex_group (prep ("(AND (X0) ; comment (" ++ String nl (String tab ("(Not (x1 ?P0 B3))" ++ String cr ")"))))
+     = Some (SList [Atom "and"; SList [Atom "x0"]; SList [Atom "not"; SList [Atom "x1"; Atom "?p0"; Atom "b3"]]])
+  /\ exists t, print_text ex_nm ex_e = Some t /\ parse_text ex_env t = Some (norm ex_e).
+Proof.
+  split; [vm_compute; reflexivity|]. split; [vm_compute; reflexivity|]. split; [vm_compute; reflexivity|].
+  apply ex_text_roundtrip. vm_compute. reflexivity.
+Qed.
+Print Assumptions C18_expr_text_roundtrip_nonvacuous.
